@@ -13,6 +13,7 @@ def wide_schema():
     """the 'Wide' family, split over several message types so that each stays small"""
     types = {}
     types["Inner"] = [F("x", 1, "sint64"), F("s", 2, "string")]
+    types["Nil"] = []                      # a message type without fields (google.protobuf.Empty-like): only its presence carries information
     types["Node"] = [F("child", 1, "message", msg="Node"), F("kids", 2, "message", "repeated", msg="Node"), F("v", 3, "int32"),
                      F("peer", 4, "message", "optional", msg="Peer")]
     types["Peer"] = [F("node", 1, "message", msg="Node"), F("tag", 2, "string")]
@@ -50,7 +51,8 @@ def wide_schema():
                      F("f", 6, "bytes", "oneof", group="g"), F("g_m", 7, "message", "oneof", group="g", msg="Inner"),
                      F("h", 8, "map", "map", kkind="string", vkind="message", msg="Inner"), F("i", 9, "wrap", vkind="int32"),
                      F("j", 10, "double"), F("k", 11, "message", "repeated", msg="Inner"), F("l", 12, "timestamp"),
-                     F("n", 13, "message", msg="Node")]
+                     F("n", 13, "message", msg="Node"), F("z", 14, "message", msg="Nil"), F("zo", 15, "message", "optional", msg="Nil"),
+                     F("zr", 16, "message", "repeated", msg="Nil"), F("g_z", 17, "message", "oneof", group="g", msg="Nil")]
     # proto names that are Python keywords / need re-casing: the Python attribute differs from the proto (and JSON) name
     types["TNames"] = [F("from", 1, "string", pyname="from_"), F("in", 2, "int32", pyname="in_"), F("class", 3, "bool", "optional", pyname="class_"),
                        F("lambda", 4, "int64", "repeated", pyname="lambda_"), F("foo_bar", 5, "string"), F("camelCase", 6, "int32", pyname="camel_case"),
